@@ -111,7 +111,7 @@ func init() {
 		return &fw.Prop{
 			ID:    "C07",
 			Level: "exploration",
-			Rule:  "cases = (face, operand batch): every triple over the 7 structured edge values (343 triples, one case each per face) plus seeded random triples in batches of 64; each triple also carries a Reduce input q*p+r with q up to 2^144-1. A case is non-trivial if it executed all 11 gadget outputs and compared them with the native reference; distinct by case id (face, batch).",
+			Rule:  "cases = (face, operand batch): every triple over the 7 structured edge values (343 triples, one case each per face) plus seeded random triples in batches of 64; each triple also carries a Reduce input q*p+r with q up to 2^144-1. A case is non-trivial if it executed all 11 gadget outputs and compared them with the native reference; distinct by case id (face, batch). Also: operands that are compile-time constants (0, 1, 2^16, 2^32, 2^48 +-1, 2^63, p-2^32, p-1) against extreme operands on the engine and on compiled R1CS / SCS systems, shared-operand shapes on compiled systems, and a compiled circuit with 192 independent operations solved concurrently under the race detector.",
 			Assumptions: []string{
 				"the native Goldilocks reference (ref/gl.go) is correct: validated on inverse/root-of-unity identities at start",
 				"engine evaluation equals compiled-circuit semantics; sampled against gnark's R1CS and SCS solvers in the 'solver' cases",
